@@ -164,8 +164,8 @@ fn run_case(seed: u64, lean: &mut Lean, hist: &mut BTreeMap<String, u64>, sample
                             }
                         }
                         let p = dir.join("keyspaces").join(l.id.to_string());
-                        // NOTE: a sealed journal's watermark list may still hold a clone of the handle (F16)
-                        if p.exists() && dbref!().journal_count() == 1 { fail!("impl-vs-oracle", "directory of deleted keyspace {n} (id {}) still exists after the last handle was dropped and all queued work ran", l.id); }
+                        // (finding F16, fixed: sealed journals no longer keep a deleted keyspace's folder alive)
+                        if p.exists() { fail!("impl-vs-oracle", "directory of deleted keyspace {n} (id {}) still exists after the last handle was dropped and all queued work ran", l.id); }
                     }
                     *hist.entry("delete-keyspace".into()).or_insert(0) += 1;
                 }
